@@ -493,6 +493,12 @@ def make_app_classes():
             await self._auto_close(rsocket, 'close_on_close')
 
         async def on_keepalive_timeout(self, time_since_last_keepalive, rsocket):
+            cur = getattr(self.w, 'installed_handler', {}).get(self.ep)
+            if cur is not None and cur is not self:
+                # the application replaced its handler on the live endpoint (set_handler_using_factory): THIS object is no longer the
+                # application's handler - the notification went to the wrong place
+                self.w.rec.log(self.ep, 'cb_stale_handler', kind='keepalive_timeout')
+                return
             self.w.rec.log(self.ep, 'cb_keepalive_timeout', x=int(time_since_last_keepalive.total_seconds() * 1000))
             await self._auto_reconnect(rsocket, 'reconnect_on_timeout')
             await self._auto_close(rsocket, 'close_on_timeout')
